@@ -29,6 +29,7 @@ func TestC15Untouched(t *testing.T) {
 			aux   []byte
 			cls   string
 			pw    string
+			crlf  bool // the hash line of the record ends in CR LF (written elsewhere): supported or not is the library's choice
 		}
 		users := map[string]*urec{}
 		names := vlib.ValidPool[:5]
@@ -38,7 +39,11 @@ func TestC15Untouched(t *testing.T) {
 			u := &urec{admin: i == 0 || rapid.Bool().Draw(t, "admin"), aux: aux, cls: cls, pw: fmt.Sprintf("pw-%d", i)}
 			set := cfg.Sets[rapid.IntRange(0, len(cfg.Sets)-1).Draw(t, "set")]
 			salt := bytes.Repeat([]byte{byte(i + 1)}, set.SaltLen())
-			os.WriteFile(fileOf(base, names[i], u.admin), append([]byte(set.Record(u.pw, salt, 1500000000+int64(i))+"\n"), aux...), 0o600)
+			term := rapid.SampledFrom([]string{"\n", "\n", "\n", "\r\n"}).Draw(t, "lineterm")
+			if u.crlf = term != "\n"; u.crlf {
+				vlib.Class("record-whose-hash-line-ends-in-CRLF")
+			}
+			os.WriteFile(fileOf(base, names[i], u.admin), append([]byte(set.Record(u.pw, salt, 1500000000+int64(i))+term), aux...), 0o600)
 			users[names[i]] = u
 		}
 		steps := rapid.IntRange(1, 12).Draw(t, "steps")
@@ -65,9 +70,14 @@ func TestC15Untouched(t *testing.T) {
 					strictSame()
 					break
 				}
+				if err != nil && u.crlf {
+					strictSame() // refused as unsupported: then nothing changed
+					break
+				}
 				if err != nil {
 					t.Fatalf("VIOLATION C15: update failed: %v", err)
 				}
+				u.crlf = false
 				after := vlib.TakeSnap(base)
 				rel := filepath.Base(fileOf(base, name, u.admin))
 				if diff := before.Diff(after, true, func(r string) bool { return r == rel || r == "." || r == ".tmp" }); len(diff) > 0 {
